@@ -46,6 +46,7 @@ def extract(P: Program) -> List[RegEntry]:
     f = P.func(f"{OPS}._create_default_registry")
     out: List[RegEntry] = []
     local_lists: Dict[str, ast.AST] = {}
+    local_calls: Dict[str, ast.Call] = {}
     # the registry object is whatever local the function returns (its name is irrelevant)
     returned = {n.value.id for n in ast.walk(f.node) if isinstance(n, ast.Return) and isinstance(n.value, ast.Name)}
     if not returned:
@@ -75,6 +76,8 @@ def extract(P: Program) -> List[RegEntry]:
             out.append(RegEntry(token, tname, f"typed:{src(c.args[1])}", {n: tmpl}, c.lineno))
         else:
             op = c.args[1]
+            if isinstance(op, ast.Name) and op.id in local_calls:
+                op = local_calls[op.id]  # the operator object was built in a preceding statement
             okw = {k.arg: k.value for k in op.keywords} if isinstance(op, ast.Call) else {}
             gen = okw.get("custom_generator")
             templates: Dict[int, str] = {}
@@ -90,6 +93,8 @@ def extract(P: Program) -> List[RegEntry]:
         for st in body:
             if isinstance(st, ast.Assign) and len(st.targets) == 1 and isinstance(st.targets[0], ast.Name) and isinstance(st.value, (ast.List, ast.Tuple)):
                 local_lists[st.targets[0].id] = st.value
+            if isinstance(st, ast.Assign) and len(st.targets) == 1 and isinstance(st.targets[0], ast.Name) and isinstance(st.value, ast.Call):
+                local_calls[st.targets[0].id] = st.value
             if isinstance(st, ast.Expr) and isinstance(st.value, ast.Call):
                 handle_call(st.value, env)
             elif isinstance(st, ast.For):
